@@ -124,7 +124,7 @@ fn measure(sc: &OpSc, m: i64, iset: &mut InstructionSet) -> Result<Cost, (PanicI
 fn measure_steady(sc: &OpSc, m: i64, big: usize, iset: &mut InstructionSet) -> Result<Cost, (PanicInfo, u64)> {
     let limit = if big > 0 { BIG_WALL_MS } else { 1_000 };
     let mut best = measure_sized(sc, m, big, iset);
-    for _ in 0..3 {
+    for _ in 0..1 {
         let wall = match &best {
             Ok(c) => c.wall_ms,
             Err((_, w)) => *w,
@@ -255,6 +255,16 @@ fn measure_sized(sc: &OpSc, m: i64, big: usize, iset: &mut InstructionSet) -> Re
         // the big low-cardinality vectors on top of their stacks again
         st.int_vector_stack.push(pushr::push::vector::IntVector::new((0..big as i32).map(|k| (k % 8 == 7) as i32).collect()));
         st.float_vector_stack.push(pushr::push::vector::FloatVector::new((0..big).map(|k| (k % 8 == 7) as i32 as f32).collect()));
+        // the big names on top of the NAME stack again
+        {
+            let unit = ["ab", "é", "x y", "日本"][(sc.seed % 4) as usize];
+            let mut name = String::with_capacity(big + 8);
+            while name.len() < big {
+                name.push_str(unit);
+            }
+            st.name_stack.push(name.clone());
+            st.name_stack.push(name);
+        }
         // small scalar operands on top again (the top INTEGER is the frequent vector value)
         for k in 0..4 {
             st.int_stack.push(sc.small_ints[k % sc.small_ints.len()]);
@@ -365,11 +375,11 @@ pub fn execute_op(sc: &OpSc, iset: &mut InstructionSet) -> OpResult {
                     excess = Some(("milliseconds of wall clock (no allocation)", c.wall_ms, 1_000, prev.as_ref().map(|p| p.wall_ms).unwrap_or(0)));
                 }
                 if let Some((what, got, lim, before)) = excess {
-                    let class = growth_class(got, before);
+                    let class = if what.starts_with("milliseconds") { "takes seconds for some operand values" } else { growth_class(got, before) };
                     vs.push(Violation {
                         property: "C15".into(),
                         class: "oracle:operand-cost".into(),
-                        site: format!("{}: the cost of one step {}", sc.instr, class),
+                        site: if what.starts_with("milliseconds") { format!("{}: one step {}", sc.instr, class) } else { format!("{}: the cost of one step {}", sc.instr, class) },
                         detail: format!("{} with operands of magnitude {}: {} {} (bound {} = 64 KiB + 64 x {} state bytes; {} at the previous magnitude)", sc.instr, if m == NONFINITE { "non-finite/extreme".to_string() } else { m.to_string() }, got, what, lim, c.statebytes, before),
                         at_event: m as u64,
                     });
